@@ -17,12 +17,12 @@ P = {
     "streams": [{
         "name": "histories", "pkg": "./internal/rules/mechanisms", "test": "TestVerifC11",
         "overlay": OVERLAY, "eval_module": "Run.Eval_C11", "check_term": "check",
-        "n_quick": 1000, "n_thorough": 12000, "shard": 64,
+        "n_quick": 800, "n_thorough": 12000, "shard": 56,
         "findings": {1: "C11-F1", 2: "C11-F2", 3: "C11-F3", 4: "C11-F4", 6: "C11-F6", 7: "C11-F7"},
     }, {
         "name": "keys", "pkg": "./internal/rules/mechanisms", "test": "TestVerifC11Keys",
         "overlay": OVERLAY, "eval_module": "Run.Eval_C11", "check_term": "check2",
-        "n_quick": 400, "n_thorough": 6000, "shard": 64,
+        "n_quick": 300, "n_thorough": 6000, "shard": 56,
         "findings": {4: "C11-F4", 5: "C11-F5"},
     }],
     "rule": "histories of 2-6 executions of REAL caching mechanisms (oauth2_introspection and generic authenticators, remote "
